@@ -17,24 +17,25 @@ type SwRec struct {
 
 // SchedConfig is the per-run scheduler configuration (a pure function of the run seed).
 type SchedConfig struct {
-	Strat    int      `json:"strat"`
-	Gran     int      `json:"gran"`
-	P        uint64   `json:"p,omitempty"`
-	Q        uint32   `json:"q,omitempty"`
-	Depth    int      `json:"depth,omitempty"`
-	EstLen   uint64   `json:"est_len,omitempty"`
-	StallT   int      `json:"stall_t,omitempty"`
-	StallAt  uint32   `json:"stall_at,omitempty"`
-	StallK   int32    `json:"stall_k,omitempty"`
-	StallHot bool     `json:"stall_hot,omitempty"` // freeze only in front of a statement that touches a package-level variable, sync or sync/atomic
-	StallMax int      `json:"stall_max,omitempty"` // number of freezes per run (0: one)
-	GCRate   uint64   `json:"gc_rate,omitempty"`
-	StepCap  uint64   `json:"step_cap,omitempty"`
-	Seed     uint64   `json:"seed"`
-	Replay   []SwRec  `json:"replay,omitempty"`
-	First    int      `json:"first"`
-	Prio     []int32  `json:"prio,omitempty"`
-	CP       []uint64 `json:"cp,omitempty"`
+	Strat     int      `json:"strat"`
+	Gran      int      `json:"gran"`
+	P         uint64   `json:"p,omitempty"`
+	Q         uint32   `json:"q,omitempty"`
+	Depth     int      `json:"depth,omitempty"`
+	EstLen    uint64   `json:"est_len,omitempty"`
+	StallT    int      `json:"stall_t,omitempty"`
+	StallAt   uint32   `json:"stall_at,omitempty"`
+	StallK    int32    `json:"stall_k,omitempty"`
+	StallHot  bool     `json:"stall_hot,omitempty"` // freeze only in front of a statement that touches a package-level variable, sync or sync/atomic
+	StallMax  int      `json:"stall_max,omitempty"` // number of freezes per run (0: one)
+	GCRate    uint64   `json:"gc_rate,omitempty"`
+	ClockRate uint32   `json:"clock_rate,omitempty"` // mean number of yields between two jumps of the simulated clock (0: it only creeps)
+	StepCap   uint64   `json:"step_cap,omitempty"`
+	Seed      uint64   `json:"seed"`
+	Replay    []SwRec  `json:"replay,omitempty"`
+	First     int      `json:"first"`
+	Prio      []int32  `json:"prio,omitempty"`
+	CP        []uint64 `json:"cp,omitempty"`
 }
 
 // Op is one operation of a task's program.
@@ -132,6 +133,7 @@ type doneEv struct {
 	Errs       int            `json:"err_results"`
 	Panics     int            `json:"panic_results"`
 	WallMs     int64          `json:"wall_ms"`
+	SimS       float64        `json:"sim_s,omitempty"` // simulated time covered by the concurrent phase (trees that read the clock only)
 }
 
 type violEv struct {
